@@ -82,6 +82,9 @@ def raise_styled(style, cls, msg, hook=None):
         e = AttributeError("'super' object has no attribute %r (%s)" % (hook, msg))
         e.name = hook
         raise e
+    if style == "nomsg":
+        # an exception without any message: str(e) == ""
+        raise cls()
     if style == "cause":
         try:
             raise KeyError("inner of " + msg)
@@ -274,6 +277,8 @@ def do_part(test, ph, part):
         import signal
         os.kill(os.getpid(), signal.SIGKILL if exc == "sigkill" else signal.SIGSEGV)
     if exc == "fail":
+        if part.get("excStyle") == "nomsg":
+            raise AssertionError()
         raise AssertionError("failure in %s of t%d" % (ph, test.spec["id"]))
     if exc == "error":
         raise_styled(part.get("excStyle"), ValueError, "error in %s of t%d" % (ph, test.spec["id"]))
@@ -395,7 +400,8 @@ def make_doctest(spec):
 
     class DT(doctest.DocTestCase):
         def __str__(self):
-            return "t%d (%s)" % (spec["id"], spec.get("module", "wtests"))
+            return "t%d (%s)%s" % (spec["id"], spec.get("module", "wtests"),
+                                   (" " + spec["label"]) if spec.get("label") else "")
 
         def id(self):
             return "wtests.DT%d.t%d" % (spec["id"], spec["id"])
